@@ -93,6 +93,7 @@ type model struct {
 	failAfter  bool
 	sharedKind [4]bool
 	lookupImp  int
+	reexpUse   int
 
 	allowExcluded bool
 }
@@ -152,6 +153,17 @@ func (in *mInst) export(name string) (extern, bool) {
 	return extern{}, false
 }
 
+// reexportHazard reports whether the function export `name` of the instance is itself an
+// import of that instance whose defining module has function imports of its own (coverage
+// label; it was the class of the fixed finding C04-compiler-reexported-import-wrong-function).
+func (in *mInst) reexportHazard(name string) bool {
+	if len(name) < 2 || name[0] != 'f' {
+		return false
+	}
+	i, err := strconv.Atoi(name[1:])
+	return err == nil && i >= 0 && i < in.v.nIF && i < len(in.funcs) && in.funcs[i].def.v.nIF > 0
+}
+
 // ---- instantiation ----
 
 // plan is the model's analysis of instantiating a spec in the current store.
@@ -165,6 +177,7 @@ type plan struct {
 	elemShared    bool     // some user element segment writes to an imported table
 	nullOver      [][2]int // (segment, item) of null items that land on a non-null funcref slot
 	aliasMut      bool     // one mutable global object is imported under two indices
+	reexpChain    bool     // imports a re-exported function import whose defining module has function imports
 }
 
 func (m *model) matchImport(im ImportSpec) (ex extern, spec, wz bool, why string) {
@@ -253,6 +266,10 @@ func (m *model) plan(spec *ModSpec, name string) *plan {
 		}
 		switch im.Kind {
 		case kFunc:
+			if m.live[im.Mod].reexportHazard(im.Name) {
+				p.reexpChain = true
+				m.reexpUse++
+			}
 			in.funcs = append(in.funcs, ex.f)
 		case kTable:
 			in.tables = append(in.tables, ex.t)
@@ -842,6 +859,9 @@ func (m *model) eval(s Step) mres {
 		}
 		return i32s(m.grow(mm, uint32(d), who))
 	case "call", "hfcall":
+		if in.reexportHazard(fmt.Sprintf("f%d", s.Idx)) {
+			m.reexpUse++
+		}
 		f := in.funcs[s.Idx]
 		v, tr := m.callFunc(f)
 		return mres{vals: v, mask: sigMask(f.sig), trap: tr}
